@@ -147,7 +147,7 @@ func randomBytes() string {
 	return string(b)
 }
 
-var intFuncs = []string{"find_first(s, 'a', %s)", "find_first(s, 'a', %s, %s)", "find_last(s, 'b', %s, %s)", "find_last(s, 'a', %s)", "pad_left(s, %p)", "pad_right(s, %p, 'x')", "split(s, 'a', %s)", "split(s, '', %s)", "replace(s, 'a', 'b', %s)", "s[%s:%s:%s]", "arr[%s:%s:%s]", "arr[%s]", "s[%s:%s]"}
+var intFuncs = []string{"t[%s:%s]", "t[%s:%s:%s]", "find_first(t, 'l', %s, %s)", "find_first(s, 'a', %s)", "find_first(s, 'a', %s, %s)", "find_last(s, 'b', %s, %s)", "find_last(s, 'a', %s)", "pad_left(s, %p)", "pad_right(s, %p, 'x')", "split(s, 'a', %s)", "split(s, '', %s)", "replace(s, 'a', 'b', %s)", "s[%s:%s:%s]", "arr[%s:%s:%s]", "arr[%s]", "s[%s:%s]"}
 
 func intArgPool() []string {
 	return []string{"`0`", "`1`", "`-1`", "`2`", "`3`", "`4`", "`5`", "`100`", "`-100`", "`9223372036854775807`", "`-9223372036854775808`", "`9223372036854775808`", "`1e30`", "`1.5`", "`-0.5`", "`1e-5`", "`4611686018427387904`", "`2147483648`", "n", "f", "nan", "inf", "big"}
@@ -179,7 +179,7 @@ func genC03(tier, out string, sum *Summary) {
 			}
 		}
 	}
-	intDoc := map[string]any{"s": "aébcab€", "arr": []any{json.Number("1"), "x", nil, json.Number("2")}, "n": json.Number("2"), "f": 2.5, "nan": decimal128.NaN(), "inf": math.Inf(1), "big": uint64(math.MaxUint64)}
+	intDoc := map[string]any{"t": "hello", "s": "aébcab€", "arr": []any{json.Number("1"), "x", nil, json.Number("2")}, "n": json.Number("2"), "f": 2.5, "nan": decimal128.NaN(), "inf": math.Inf(1), "big": uint64(math.MaxUint64)}
 	for i := 0; i < n; i++ {
 		switch i % 6 {
 		case 0: // valid expressions on the kind zoo
@@ -247,6 +247,19 @@ func genC03(tier, out string, sum *Summary) {
 	unary := []string{"abs(@)", "avg(@)", "ceil(@)", "floor(@)", "from_items(@)", "items(@)", "keys(@)", "length(@)", "lower(@)", "max(@)", "min(@)", "reverse(@)", "sort(@)", "sum(@)", "to_array(@)", "to_number(@)", "to_string(@)", "trim(@)", "type(@)", "upper(@)", "values(@)",
 		"sort_by(@, &@)", "max_by(@, &@)", "min_by(@, &@)", "group_by(@, &@)", "map(&@, @)", "sort_by(@, &a)", "max_by(@, &a)", "group_by(@, &a)", "zip(@, @)", "merge(@, @)", "not_null(@)", "join('', @)", "join(@, @)", "contains(@, @)", "contains(@, `1`)", "starts_with(@, @)", "find_first(@, @)", "find_first('a', 'a', @)", "find_first('a', 'a', `0`, @)", "find_last('ab', 'b', @, @)",
 		"pad_left(@, `2`)", "pad_right('a', `2`, @)", "split(@, @)", "split('a', '', @)", "replace(@, @, @)", "replace('a', 'a', 'b', @)", "trim(@, @)", "@[0]", "@[1:]", "@[::-1]", "@[::2]", "@[*]", "@[]", "@.*", "@[?@]", "@[?@ == @]", "@ == @", "@ != `1`", "@ < @", "@ <= `1`", "@ + @", "@ - `1`", "@ * @", "@ / @", "@ // @", "@ % @", "- @", "+ @", "!@", "@ && @", "@ || @", "[@, @]", "{a: @}", "@.a", "@ | @", "let $v = @ in $v == $v"}
+	// widths and counts taken from the leaf itself: every leaf except finite numbers above 1000 (the width decides
+	// the size of the result)
+	for _, lf := range leaves {
+		if d, ok := toDec(lf); ok && !d.IsNaN() && !d.IsInf(0) {
+			if a := decimal128.Abs(d); a.Cmp(decimal128.New(1000, 0)).Greater() {
+				continue
+			}
+		}
+		for _, f := range []string{"pad_left('a', @)", "pad_right('a', @, 'x')", "pad_left(@, @)", "pad_right('ab', @, @)"} {
+			quiet(f, lf, "width-from-leaf")
+			quiet(strings.ReplaceAll(f, "@", "a"), map[string]any{"a": lf}, "width-from-leaf")
+		}
+	}
 	k := 0
 	for _, f := range unary {
 		for _, lf := range leaves {
@@ -414,6 +427,18 @@ func genC04(tier, out string, sum *Summary) {
 					emit(fmt.Sprintf(wrap, body+tail), "invalid")
 				}
 			}
+		}
+	}
+	// letters outside ASCII never continue an unquoted identifier, whatever their low byte looks like
+	for _, ch := range []string{"\u0441", "\u0430", "\u0435", "\u0131", "\u0141", "\uff5a", "\U0001d15f", "\u4e2d", "\u00e9", "\u00df", "\u0100", "\u0161", "\u0479", "\u212a"} {
+		for _, form := range []string{"a%s", "%sa", "a%sb", "foo.bar%s", "items[?nam%s == 'x']", "$a%s", "let $v%s = a in $v%s", "abs%s(a)", "{k%s: a}", "a.%s"} {
+			emit(strings.ReplaceAll(form, "%s", ch), "invalid")
+		}
+	}
+	// number = ["-"] 1*digit: leading zeros are digits, the value is decimal
+	for _, n := range []string{"08", "-09", "010", "-011", "00", "007", "0", "-0", "018", "0x1"[:1] + "9"} {
+		for _, form := range []string{"a[%s]", "a[%s:]", "a[:%s]", "a[::%s]"[:0] + "a[1:%s]", "[%s]", "a[*][%s]", "a | [%s]"} {
+			emit(strings.ReplaceAll(form, "%s", n), "valid")
 		}
 	}
 	// characters that are white space elsewhere but not in this grammar (only space, tab, LF, CR are), at either
